@@ -5,6 +5,7 @@ package cbor
 
 import (
 	"bytes"
+	"fmt"
 	"io"
 	"testing"
 	"unicode/utf8"
@@ -697,6 +698,74 @@ func TestInterleavedDecoders(t *testing.T) {
 						if !bytes.Equal(kv[0], kv[1]) {
 							c.Violation("result-changed-later", "DecodeByteString", "a byte string returned by decoder %d was modified by later calls (schedule %s)", i, sched)
 						}
+					}
+				}
+			}
+			c.Outcome("nt:done")
+			c.Sig("%s", sched)
+		})
+	})
+}
+
+// TestConcurrentDecoders: two or three decoder tasks over their own streams run
+// under the cooperative scheduler and are parked at every Read of their
+// (chunked) channel - also in the middle of a string body. Each call is judged
+// against its own stream. Some streams are truncated so that failed string
+// decodes precede and accompany the successful ones.
+func TestConcurrentDecoders(t *testing.T) {
+	rapid.Check(t, func(t *rapid.T) {
+		core.Run(t, "cbor/concurrent-decoders", func(c *core.Ctx) {
+			n := c.Int("ntasks", 2, 3)
+			type callRec struct {
+				pos      int
+				k        callKind
+				r        callResult
+				consumed int
+			}
+			streams := make([][]byte, n)
+			recs := make([][]callRec, n)
+			readers := make([]*core.SimReader, n)
+			var tasks []func(yield func())
+			for i := 0; i < n; i++ {
+				i := i
+				st, _ := buildStream(c, 4)
+				if c.Chance("truncate", 1, 3) && len(st) > 1 {
+					st = st[:c.Int("truncateAt", 1, len(st)-1)]
+					c.Fault("chan-truncate")
+				}
+				streams[i] = st
+				plan := core.ReaderPlan{ErrAt: -1, Mode: 1, Chunk: c.PickInt("chunk", 1, 3, 8, 64)}
+				readers[i] = c.NewReader(fmt.Sprintf("chan%d", i), st, plan)
+				tasks = append(tasks, func(yield func()) {
+					sr := readers[i]
+					sr.OnCall = yield
+					d := verifhook.NewCborDecoder(sr)
+					for step := 0; step < 8; step++ {
+						pos := sr.Consumed()
+						if pos >= len(st) {
+							return
+						}
+						major, _, _, _, _ := refcbor.Head(st, pos)
+						k := matching(major)
+						r := doCall(d, k)
+						recs[i] = append(recs[i], callRec{pos, k, r, sr.Consumed()})
+						if r.err != nil {
+							return
+						}
+					}
+				})
+			}
+			sched, panics := c.RunTasks("sched", tasks)
+			c.Event("schedule %s", sched)
+			for i, p := range panics {
+				if p != nil && c.Oracle("C10", "C12") {
+					c.Violation("panic", "cbor.Decoder", "decoder task %d panicked under schedule %s: %v", i, sched, p)
+				}
+			}
+			if c.Oracle("C12") {
+				for i := range recs {
+					for _, cr := range recs[i] {
+						judge(c, streams[i], cr.pos, cr.k, cr.r, cr.consumed, true)
 					}
 				}
 			}
